@@ -71,6 +71,7 @@ inductive Expr where
   | call (f : String) (args : Expr)             -- a call into other code: `ext f args`
   | toTup (a : Expr)                            -- `tuple(a)`
   | isInt (a : Expr)                            -- `isinstance(a, int)`
+  | isTd (a : Expr)                             -- `isinstance(a, timedelta)`
   | anyGen (v : String) (it c e : Expr)         -- `any(e for v in it if c)`, short-circuit
   | allGen (v : String) (it c e : Expr)         -- `all(e for v in it if c)`, short-circuit
   | nextGen (v : String) (it c e : Expr)        -- `next(e for v in it if c)`: the first one (`StopIteration` if none)
@@ -315,6 +316,17 @@ def appendAtVal (m k v : Val) : M Val :=
     | Option.none => unsupported "map"
   | _ => unsupported "map"
 
+/-- `isinstance(v, int)` (a `bool` is an `int`) -/
+def isIntB : Val → Bool
+  | .int _ => true
+  | .bool _ => true
+  | _ => false
+
+/-- `isinstance(v, timedelta)` -/
+def isTdB : Val → Bool
+  | .td _ => true
+  | _ => false
+
 def evalExpr (ext : Ext) (env : Env) : Expr → M Val
   | .lit v => .ok v
   | .var x => lookup env x
@@ -353,7 +365,8 @@ def evalExpr (ext : Ext) (env : Env) : Expr → M Val
     match seqOf v with
     | some l => .ok (.tup (Val.ofList l))
     | none => unsupported "tuple()"
-  | .isInt a => evalExpr ext env a >>= fun v => .ok (.bool (match v with | .int _ => true | .bool _ => true | _ => false))
+  | .isInt a => evalExpr ext env a >>= fun v => .ok (.bool (isIntB v))
+  | .isTd a => evalExpr ext env a >>= fun v => .ok (.bool (isTdB v))
   | .anyGen v it c e => evalExpr ext env it >>= fun l =>
     match seqOf l with
     | some xs => anyM (fun x => evalExpr ext (setVar env v x) c >>= truth >>= fun b =>
